@@ -134,6 +134,7 @@ def qtensor_save(chk):
     name_e = None
     leaf_ok = rec_ok = False
     leaf_test = False
+    leaf_forms = set()
     for pth in paths:
         stores = [ef for ef in pth.effects if ef[0] == "substore" and U(ef[1]) == dest]
         recs = [ef[1] for ef in pth.effects if ef[0] == "expr" and isinstance(ef[1], ast.Call) and isinstance(ef[1].func, ast.Name) and ef[1].func.id == h.name]
@@ -147,6 +148,12 @@ def qtensor_save(chk):
                 is_leaf = facts.get(f"type({v}) == torch.Tensor")
                 leaf_test = leaf_test or is_leaf is True
                 if is_leaf is True and U(val) == f"{v} if {keep} else {v}.detach()":
+                    leaf_ok = True
+                elif is_leaf is True and facts.get(keep) is True and U(val) == v:
+                    leaf_forms.add("kept")
+                elif is_leaf is True and facts.get(keep) is False and U(val) == f"{v}.detach()":
+                    leaf_forms.add("detached")
+                if leaf_forms >= {"kept", "detached"}:
                     leaf_ok = True
         for rc in recs:
             a = [U(x) for x in rc.args]
